@@ -5,10 +5,10 @@ from imports import imported
 
 PROPERTY = "C09"
 LEVEL = "proof"
-EXPLANATION = ("Proof of the operand-selection rules of the SuperscalarHash generator on the real selectDestination / selectSource / selectRegister (ready at the cycle, distinct from the source unless allowed, no chained multiplication unless permitted, not the same group and parameter twice, r5 never the destination of IADD_RS and forced as source when it is one of two candidates) with their frame, and of the SuperscalarHash interpreter executeSuperscalar (each instruction kind computes what Table 6.1.1 prescribes for all register values). The scheduler, decoder-buffer choice, termination and the equality of the generated programs with the specification's generator are not decided.")
+EXPLANATION = ("Proof of the operand-selection rules of the SuperscalarHash generator on the real selectDestination / selectSource / selectRegister (ready at the cycle, distinct from the source unless allowed, no chained multiplication unless permitted, not the same group and parameter twice, r5 never the destination of IADD_RS and forced as source when it is one of two candidates) with their frame, and of the SuperscalarHash interpreter executeSuperscalar (each instruction kind computes what Table 6.1.1 prescribes for all register values; memory safety, frame and termination for every program of well-formed instructions, loop contract), and of the control skeleton of generateSuperscalar with all callees as range-only stand-ins: at most 3*170+2 instructions are emitted and all inside the program buffer, no instruction is created after a macro-op was scheduled at a cycle >= 170 (the termination rule of 6.3), both loops terminate. The scheduler, decoder-buffer choice, termination and the equality of the generated programs with the specification's generator are not decided.")
 TRUSTED = ['mulh / smulh / rotr / randomx_reciprocal stand-ins with contracts (their bodies: C17, C18); the three in-line 64-bit products of executeSuperscalar are rewritten to RXV_MUL64 by the extraction (uninterpreted in the step obligation)', 'stand-ins with contracts: instruction-type query (info_->getType()) and generator draw (Blake2Generator::getUInt32)', 'std::vector<int> of candidate registers is a fixed-capacity (8) list stand-in; exceeding the capacity is an assertion failure']
 ASSUMPTIONS = []
-NOT_DECIDED = ['executeSuperscalar memory safety / frame / termination for every program size as one loop contract (attempt obligation; the per-instruction step is decided)', 'generateSuperscalar scheduler (port map, decode buffers, throw-away counter, termination, program size bounds)', "equality of the eight generated programs with the specification's generator for every key", 'generateSuperscalarCode (native code) vs executeSuperscalar equivalence', 'address-register choice (longest dependency chain)']
+NOT_DECIDED = ['what the generator stand-ins compute: port map (scheduleMop / scheduleUop), decode-buffer choice, instruction creation (createForSlot)', "equality of the eight generated programs with the specification's generator for every key", 'generateSuperscalarCode (native code) vs executeSuperscalar equivalence', 'address-register choice (longest dependency chain)']
 INC = ["@suites/common"]
 
 
@@ -23,28 +23,24 @@ def sel(name, entry, fn):
 OBLIGATIONS = [
     sel("select_destination_obeys_operand_rules_and_frame", "h_select_dst", "SuperscalarInstruction_selectDestination"),
     sel("select_source_obeys_operand_rules_and_frame", "h_select_src", "SuperscalarInstruction_selectSource"),
-    # loop contract over every program size: exhausted 30 GB / 18 min; kept as an attempt, listed as not decided
-    {"name": "execute_superscalar_safe_framed_terminating_for_every_program", "incdirs": INC, "tier": "attempt",
+    {"name": "execute_superscalar_safe_framed_terminating_for_every_program", "incdirs": INC,
      "files": [{"cxx": dict(XS.SS_EXEC, pre_rewrites=XS.SS_EXEC["pre_rewrites"] + [{"name": "instruction at position j -> any well-formed instruction", "pattern": r"prog\(j\)", "repl": "(*rxv_any_instruction(&prog, j))"}]),
                 "out": "ss.c", "header": True, "loops": [{"function": "executeSuperscalar", "expect_loops": 1, "loops": {"0": "RXV_SS_LOOP_INVARIANT"}}]}, "harness_ss_exec.c"],
-     "defines": ['RXV_CONTRACTS_H="contracts_ss_exec.h"', "EVERY_SIZE=1"], "entry": "h_exec_all", "enforce": "executeSuperscalar",
-     "replace": ["mulh", "smulh", "rotr", "randomx_reciprocal", "rxv_any_instruction"], "loop_contracts": True, "cbmc_flags": ["--object-bits", "12"], "timeout": 1800, "mem_gb": 30, "weight": 6,
-     "checks": ["--bounds-check", "--pointer-check", "--div-by-zero-check", "--undefined-shift-check", "--signed-overflow-check"],
+     "defines": ['RXV_CONTRACTS_H="contracts_ss_exec.h"', "EVERY_SIZE=1", "RXV_EXEC_STANDINS_AS_FUNCTIONS=1"], "entry": "h_exec_all", "enforce": "executeSuperscalar",
+     "replace": [], "loop_contracts": True, "cbmc_flags": ["--object-bits", "12"],      "checks": ["--bounds-check", "--pointer-check", "--div-by-zero-check", "--undefined-shift-check", "--signed-overflow-check"],
      "expect_classes": ["loop_invariant_step", "precondition"], "expect_min": 10},
     {"name": "execute_superscalar_step_equals_table_6_1_1", "incdirs": INC,
      "files": [{"cxx": XS.SS_EXEC, "out": "ss.c", "header": True}, "harness_ss_exec.c"],
      "defines": ['RXV_CONTRACTS_H="contracts_ss_exec.h"'], "entry": "h_exec_step", "replace": ["mulh", "smulh", "rotr", "randomx_reciprocal"], "unwind": 9,
      "checks": ["--bounds-check", "--pointer-check", "--div-by-zero-check", "--undefined-shift-check", "--signed-overflow-check"],
      "expect_classes": ["assertion"], "expect_min": 8},
-    {"name": "generator_skeleton_program_bounds_termination_rule_and_termination", "incdirs": INC, "tier": "attempt",
+    {"name": "generator_skeleton_program_bounds_termination_rule_and_termination", "incdirs": INC,
      "files": [{"cxx": XS.SS_GENERATE, "out": "sg.c", "header": True,
                 "loops": [{"function": "generateSuperscalar", "expect_loops": 6,
                            "loops": {"0": "RXV_GEN_OUTER_INVARIANT", "1": "RXV_GEN_INNER_INVARIANT", "4": "RXV_GEN_ASIC_INVARIANT"}}]}, "harness_ss_generate.c"],
-     "defines": ['RXV_CONTRACTS_H="contracts_ss_generate.h"'], "entry": "h_generate", "enforce": "generateSuperscalar",
-     "replace": ["rxv_db_fetchNext", "rxv_db_size", "rxv_db_count", "rxv_db_index", "rxv_cur_type", "rxv_cur_size", "rxv_cur_create", "rxv_cur_op", "rxv_cur_srcop", "rxv_cur_dstop",
-                 "rxv_cur_resultop", "rxv_cur_select_src", "rxv_cur_select_dst", "rxv_cur_dst", "rxv_cur_group", "rxv_cur_grouppar", "rxv_cur_emit", "rxv_mop_latency", "rxv_mop_size",
-                 "isMultiplication", "rxv_schedule_probe", "rxv_schedule_commit", "rxv_emitted"],
-     "loop_contracts": True, "pre_unwindset": ["generateSuperscalar.0:5", "generateSuperscalar.1:5"], "unwind": 30, "cbmc_flags": ["--object-bits", "12"],
+     "defines": ['RXV_CONTRACTS_H="contracts_ss_generate.h"', "RXV_STANDINS_AS_FUNCTIONS=1"], "entry": "h_generate", "enforce": "generateSuperscalar",
+     "replace": [],
+     "loop_contracts": True, "pre_unwindset": ["generateSuperscalar.0:5", "generateSuperscalar.1:5", "generateSuperscalar.5:9"], "unwind": 30, "cbmc_flags": ["--object-bits", "12"],
      "checks": ["--bounds-check", "--pointer-check", "--div-by-zero-check", "--undefined-shift-check", "--no-signed-overflow-check"],
      "expect_classes": ["loop_invariant_step", "precondition", "postcondition"], "expect_min": 20, "timeout": 2400, "mem_gb": 30, "backend": "kissat"},
 ]
